@@ -124,8 +124,8 @@ _md_numeral_pat = re.compile(r"^[0-9]+[.)]$")
 # thematic break or a setext heading underline (`---`, `***`, `___`, `===`, `--`, `=`).
 _md_rule_pat = re.compile(r"^(-{2,}|=+|\*{2,}|_+)$")
 
-# Lines that are a thematic break, also when they follow a `-` list marker (`- --`).
-_md_thematic_pat = re.compile(r"^((-[ \t]*){2,}|(\*[ \t]*){3,}|(_[ \t]*){3,})$")
+# Lines that are a thematic break, also when they follow a `-` or `*` list marker (`- --`).
+_md_thematic_pat = re.compile(r"^((-[ \t]*){2,}|(\*[ \t]*){2,}|(_[ \t]*){3,})$")
 
 # Words that at the start of a line may be (the start of) the delimiter row of a table
 # (`-|`, `|-|-|`, `:-:`), if the line above has a pipe. A smiley `:-|` is one of them.
